@@ -479,7 +479,15 @@ class Sequence:
         # Then check that elements use the same channels
         specchans = []
         for elem in self._data.values():
-            chans = _channelListSorter(elem.channels)
+            try:
+                chans = _channelListSorter(elem.channels)
+            except SequenceConsistencyError:
+                # a subsequence that is itself inconsistent
+                failmssg = "checkConsistency failed: inconsistent subsequence."
+                log.info(failmssg)
+                if verbose:
+                    print(failmssg)
+                return False
             specchans.append(chans)
         if specchans == []:  # case of empty Sequence
             chans = None
